@@ -2,7 +2,7 @@
    Only statements closed by [exact]; proofs live in Proofs/. *)
 From Coq Require Import ZArith NArith List Permutation.
 From TP Require Import Model.Assign Model.Link Model.LinkCheck
-     Proofs.BnB Proofs.Opt Proofs.Cands Proofs.Comps Proofs.Step Proofs.Labels Proofs.Monitor.
+     Proofs.BnB Proofs.Opt Proofs.Cands Proofs.Comps Proofs.Connected Proofs.Step Proofs.Labels Proofs.Monitor.
 Import ListNotations.
 Open Scope Z_scope.
 
@@ -31,6 +31,13 @@ Theorem C02_subnets_partition : forall items,
   pw_disj (components items) /\ Permutation (concat (components items)) items.
 Proof. exact components_spec. Qed.
 Print Assumptions C02_subnets_partition.
+
+(* (3b) ... and each subnet is connected: any two of its sources are joined by a chain of
+   sources competing for a common destination.  So the subnets are exactly the groups
+   of mutually competing particles, and (4) raises for no other reason. *)
+Theorem C02_subnets_connected : forall items, Forall connected (components items).
+Proof. exact components_connected. Qed.
+Print Assumptions C02_subnets_connected.
 
 (* (4) One step of the linker: over ALL candidate sources (previous frame and
    remembered ones: [live st]) the links made are one-to-one, use only pairs within
